@@ -228,7 +228,8 @@ def _method(prog, self_suffix, name, trait=None):
         if st.endswith("::" + self_suffix) or st == self_suffix:
             if trait is None or (f.rec.get("impl_of_trait") or "").endswith(trait):
                 return f
-    raise AnchorMissing("%s::%s" % (self_suffix, name))
+    gone = not any(p == self_suffix or p.endswith("::" + self_suffix) for p in prog.adts)
+    raise AnchorMissing("%s::%s" % (self_suffix, name), absent=gone)
 
 
 def _field_increments(f, field):
